@@ -102,6 +102,125 @@ def canon_model_parse(t, term):
     return ("err", term[1])
 
 
+B58 = "123456789ABCDEFGHJKLMNPQRSTUVWXYZabcdefghijkmnopqrstuvwxyz"
+
+
+def b58check_encode(version, payload):
+    """reference: Base58Check as documented (version byte, payload, first 4 bytes of SHA256(SHA256(.)))"""
+    import hashlib
+    raw = bytes([version]) + payload
+    raw += hashlib.sha256(hashlib.sha256(raw).digest()).digest()[:4]
+    n = int.from_bytes(raw, "big")
+    out = ""
+    while n > 0:
+        n, r = divmod(n, 58)
+        out = B58[r] + out
+    return "1" * (len(raw) - len(raw.lstrip(b"\0"))) + out
+
+
+def b58check_decode_account(s):
+    """reference for FromStr for AccountAddress: 32 payload bytes, version 1, else None"""
+    import hashlib
+    if not s or any(ch not in B58 for ch in s):
+        return None
+    n = 0
+    for ch in s:
+        n = n * 58 + B58.index(ch)
+    zeros = len(s) - len(s.lstrip("1"))
+    body = n.to_bytes((n.bit_length() + 7) // 8, "big")
+    raw = b"\0" * zeros + body
+    if len(raw) != 37 or raw[0] != 1:
+        return None
+    if hashlib.sha256(hashlib.sha256(raw[:33]).digest()).digest()[:4] != raw[33:]:
+        return None
+    return raw[1:33].hex()
+
+
+def model_values(seed, n):
+    """Values written as Gallina terms for the model encoder: (type, term, well_formed)."""
+    import random
+    rnd = random.Random(seed)
+
+    def edge(bits):
+        k = rnd.randrange(6)
+        if k == 0:
+            return rnd.choice([0, 1, 2 ** bits - 1, 2 ** bits - 2, 2 ** (bits - 1), 2 ** (bits - 1) - 1])
+        if k == 1:
+            return 2 ** rnd.randrange(bits)
+        if k == 2:
+            return 2 ** rnd.randrange(1, bits + 1) - 1
+        return rnd.randrange(2 ** bits)
+
+    def z(bits):
+        v = edge(bits)
+        v = v - 2 ** bits if v >= 2 ** (bits - 1) else v
+        return "(%d)%%Z" % v
+
+    def lst(xs):
+        return "[" + ";".join(xs) + "]"
+
+    out = []
+    for _ in range(n):
+        out.append(("u128", str(edge(128)), True))
+        out.append(("u64", str(edge(64)), True))
+        out.append(("i8", z(8), True))
+        out.append(("i64", z(64), True))
+        out.append(("i128", z(128), True))
+        out.append(("bool", rnd.choice(["true", "false"]), True))
+        out.append(("vec_pair_u8_u32", lst(["(%d,%d)" % (edge(8), edge(32)) for _ in range(rnd.randrange(5))]), True))
+        out.append(("opt_vec_u16", rnd.choice(["None", "(Some %s)" % lst([str(edge(16)) for _ in range(rnd.randrange(4))])]), True))
+        out.append(("vec_vec_u8", lst([lst([str(edge(8)) for _ in range(rnd.randrange(4))]) for _ in range(rnd.randrange(4))]), True))
+        txt = "".join(rnd.choice(["a", "Z", "~", "\u00e9", "\u20ac", "\U0001f600", " "]) for _ in range(rnd.randrange(6)))
+        out.append(("string", lst([str(b) for b in txt.encode("utf-8")]), True))
+        bad_utf8 = rnd.choice([[0xc3], [0xe2, 0x82], [0xff], [0xc0, 0x80], [0xed, 0xa0, 0x80], [0xf4, 0x90, 0x80, 0x80], [0x80]])
+        out.append(("string", lst([str(b) for b in (list(b"ab") + bad_utf8)]), False))
+        ks = [edge(32) for _ in range(rnd.randrange(6))]
+        sorted_ks = sorted(set(ks))
+        out.append(("ordset32_u32", lst([str(k) for k in sorted_ks]), True))
+        if len(sorted_ks) >= 2:
+            sw = list(sorted_ks)
+            i = rnd.randrange(len(sw) - 1)
+            sw[i], sw[i + 1] = sw[i + 1], sw[i]
+            out.append(("ordset32_u32", lst([str(k) for k in sw]), False))        # descending pair
+            du = list(sorted_ks)
+            du[i + 1] = du[i]
+            out.append(("ordset32_u32", lst([str(k) for k in du]), False))        # duplicate
+            out.append(("nolenset_u16", lst([str(k % 65536) for k in sorted(set(k % 65536 for k in sorted_ks))]), True))
+        mk = sorted(set(edge(8) for _ in range(rnd.randrange(6))))
+        out.append(("ordmap8_u8_u16", lst(["(%d,%d)" % (k, edge(16)) for k in mk]), True))
+        if len(mk) >= 2:
+            mk2 = list(mk)
+            mk2[0], mk2[1] = mk2[1], mk2[0]
+            out.append(("ordmap8_u8_u16", lst(["(%d,%d)" % (k, edge(16)) for k in mk2]), False))
+            out.append(("ordmap8_u8_u16", lst(["(%d,%d)" % (k, edge(16)) for k in [mk[0], mk[0]]]), False))
+        out.append(("set_u32", lst([str(k) for k in sorted_ks]), True))
+        out.append(("map_u8_u16", lst(["(%d,%d)" % (k, edge(16)) for k in mk]), True))
+        out.append(("address", rnd.choice(["(inl %s)" % lst([str(edge(8)) for _ in range(32)]), "(inr (%d,%d))" % (edge(64), edge(64))]), True))
+        t = edge(64)
+        out.append(("account_balance", "(%d,(%d,%d))" % (t, rnd.randrange(t + 1), rnd.randrange(t + 1)), True))
+        if t < 2 ** 64 - 1:
+            out.append(("account_balance", "(%d,(%d,%d))" % (t, t + 1, 0), False))
+            out.append(("account_balance", "(%d,(%d,%d))" % (t, 0, t + 1), False))
+        out.append(("exchange_rate", "(%d,%d)" % (max(1, edge(64)), max(1, edge(64))), True))
+        out.append(("exchange_rate", rnd.choice(["(0,5)", "(5,0)", "(0,0)"]), False))
+        out.append(("threshold", str(max(1, edge(8))), True))
+        out.append(("threshold", "0", False))
+        al = rnd.choice([0, 1, 30, 31])
+        out.append(("attribute_value", lst([str(edge(8)) for _ in range(al)]), True))
+        out.append(("attribute_value", lst([str(edge(8)) for _ in range(rnd.choice([32, 33, 40]))]), False))
+        items = lst(["(%d,%s)" % (edge(8), lst([str(edge(8)) for _ in range(rnd.choice([0, 2, 31]))])) for _ in range(rnd.randrange(4))])
+        out.append(("policy", "(%d,(%d,(%d,%s)))" % (edge(32), edge(64), edge(64), items), True))
+        nm = "init_" + "".join(rnd.choice("abcXYZ019_-~!") for _ in range(rnd.choice([0, 1, 9, 95])))
+        out.append(("contract_name", lst([str(b) for b in nm.encode()]), True))
+        out.append(("contract_name", lst([str(b) for b in (nm[:20] + ".x").encode()]), False))
+        out.append(("contract_name", lst([str(b) for b in ("init_" + "a" * 96).encode()]), False))
+        out.append(("receive_name", lst([str(b) for b in (nm[5:55] + "." + nm[5:30]).encode()]), True))
+        out.append(("receive_name", lst([str(b) for b in b"nodot"]), False))
+        out.append(("entrypoint_name", lst([str(b) for b in ("e" * rnd.choice([0, 1, 99])).encode()]), True))
+        out.append(("entrypoint_name", lst([str(b) for b in ("e" * 100).encode()]), False))
+    return out
+
+
 def run(ctx):
     kf = c.load_known_findings()
     ctx.assumptions += [
@@ -136,7 +255,7 @@ def run(ctx):
     samples = []
 
     # ------------------------------------------------------------------ bytes
-    nb = 5 if ctx.quick else 60
+    nb = 4 if ctx.quick else 24
     rc, out = c.run_bin(binp, ["bytes", ctx.seed, nb], timeout=900)
     if rc != 0:
         ctx.violation({"layer": "harness run (bytes)", "output": out[-2000:]}, "byte harness crashed", no_input=True)
@@ -148,7 +267,7 @@ def run(ctx):
             ctx.violation({"case": cs}, "to_bytes panicked on a generated value of type %s" % cs["t"])
     exprs = ["probe %s %s" % (CODEC[cs["t"]], nlist(unhex(cs["in"]))) for cs in bcases]
     ctx.log("bytes: %d cases from the harness; evaluating the model" % len(bcases))
-    terms = c.coq_eval(ctx, "bytes", PREAMBLE, exprs, shard=250)
+    terms = c.coq_eval(ctx, "bytes", PREAMBLE, exprs, shard=500)
     ctx.log("bytes: model evaluated")
     dist = {}
     accept = reject = 0
@@ -203,8 +322,53 @@ def run(ctx):
     ctx.cov["evaluations"] += len(bcases)
     ctx.cov["traces_validated_against_impl"] += len(bcases)
 
+    # ------------------------------------------------------------------ model-generated values
+    mv = model_values(ctx.seed, 3 if ctx.quick else 25)
+    ctx.log("model-generated values: %d; encoding with the model" % len(mv))
+    encs = c.coq_eval(ctx, "menc", PREAMBLE, ["enc %s %s" % (CODEC[t], v) for t, v, _ in mv], shard=250)
+    lines = "".join("%s %s\n" % (t, bytes(e).hex()) for (t, _, _), e in zip(mv, encs))
+    rc, out = c.run_bin(binp, ["probe"], timeout=600, input=lines.encode())
+    if rc != 0:
+        ctx.violation({"layer": "harness run (probe)", "output": out[-2000:]}, "probe harness crashed", no_input=True)
+        return
+    pres = [json.loads(l) for l in out.split("\n") if l.startswith("{")]
+    mdist = {"well-formed accepted": 0, "ill-formed rejected": 0}
+    nviol = 0
+    for (t, v, wfv), e, pr in zip(mv, encs, pres):
+        key = c.digest(["model", t, v])
+        seen.add(key)
+        r = pr.get("r")
+        hexin = bytes(e).hex()
+        bad = None
+        if pr.get("unknown_type"):
+            bad = "harness does not know the type"
+        elif r == "PANIC":
+            bad = "decoding panicked"
+        elif wfv:
+            if r is None:
+                bad = "the model encoding of a well-formed value is rejected by the implementation"
+            elif r["n"] != len(e) or r["re"] != hexin:
+                bad = "the implementation decodes the model encoding to a value with another encoding (%s, %d bytes)" % (r["re"], r["n"])
+            else:
+                mdist["well-formed accepted"] += 1
+                nontrivial.add(key)
+        else:
+            if r is not None:
+                bad = "the encoding of an ill-formed value (unordered / duplicate keys, failed refinement) is accepted"
+            else:
+                mdist["ill-formed rejected"] += 1
+        if bad:
+            nviol += 1
+            if nviol <= 6:
+                ctx.violation({"kind": "model-generated", "type": t, "value": v, "well_formed": wfv, "encoding_hex": hexin, "impl": r,
+                               "theorem": "RT / ordered_reject / refinement laws of %s" % CODEC[t]},
+                              "model-generated %s value %s (encoding %s): %s" % (t, v[:80], hexin[:80], bad))
+    ctx.notes["model_generated_distribution"] = mdist
+    ctx.cov["evaluations"] += len(mv)
+    ctx.cov["traces_validated_against_impl"] += len(mv)
+
     # ------------------------------------------------------------------ text
-    nt = 12 if ctx.quick else 300
+    nt = 10 if ctx.quick else 110
     rc, out = c.run_bin(binp, ["text", ctx.seed, nt], timeout=900)
     if rc != 0:
         ctx.violation({"layer": "harness run (text)", "output": out[-2000:]}, "text harness crashed", no_input=True)
@@ -228,7 +392,7 @@ def run(ctx):
                 nlist(cs["c"]), nlist(cs["e"]), nlist(cs["c"]), nlist(cs["e"])))
             idx.append((i, "construct"))
     ctx.log("text: %d expressions; evaluating the model" % len(exprs))
-    terms = c.coq_eval(ctx, "text", PREAMBLE, exprs, shard=250)
+    terms = c.coq_eval(ctx, "text", PREAMBLE, exprs, shard=500)
     ctx.log("text: model evaluated")
     tdist = {}
     o4 = []
@@ -298,6 +462,19 @@ def run(ctx):
             tv({"kind": "oracle", "case": cs}, "implementation-only oracle failed: %s on %r" % (cs["t"], cs.get("s")))
         if cs["k"] == "stat":
             ctx.notes["account_address_base58"] = cs
+    for cs in tcases:
+        if cs["k"] == "acc_print":
+            tdist["account_address:print"] = tdist.get("account_address:print", 0) + 1
+            want = b58check_encode(1, bytes.fromhex(cs["bytes"]))
+            if cs["s"] != want:
+                tv({"kind": "account-address-print", "bytes": cs["bytes"], "impl": cs["s"], "reference": want},
+                   "AccountAddress %s prints as %s, Base58Check(version 1) is %s" % (cs["bytes"], cs["s"], want))
+        if cs["k"] == "acc_parse":
+            tdist["account_address:parse"] = tdist.get("account_address:parse", 0) + 1
+            want = b58check_decode_account(cs["s"])
+            if cs["r"] != want:
+                tv({"kind": "account-address-parse", "string": cs["s"], "impl": cs["r"], "reference": want},
+                   "AccountAddress string %r: implementation %s, Base58Check(version 1) reference %s" % (cs["s"], cs["r"], want))
     ctx.notes["text_distribution"] = tdist
     ctx.notes["observation_O4_duration_overflow"] = {"count": len(o4), "examples": o4[:4],
                                                       "note": "outside the claim: panics with overflow checks, wraps without"}
@@ -313,7 +490,7 @@ def run(ctx):
     ctx.cov["traces_validated_against_impl"] += len(idx)
 
     # ------------------------------------------------------------------ arithmetic
-    na = 60 if ctx.quick else 1500
+    na = 40 if ctx.quick else 500
     rc, out = c.run_bin(binp, ["arith", ctx.seed, na], timeout=900)
     if rc != 0:
         ctx.violation({"layer": "harness run (arith)", "output": out[-2000:]}, "arith harness crashed", no_input=True)
@@ -337,7 +514,7 @@ def run(ctx):
         elif op == "amount_to_euro_cent":
             exprs.append("convert_amount_to_euro_cent %s %s %s" % (cs["num"], cs["den"], cs["x"]))
     ctx.log("arith: %d expressions; evaluating the model" % len(exprs))
-    terms = c.coq_eval(ctx, "arith", PREAMBLE, exprs, shard=400)
+    terms = c.coq_eval(ctx, "arith", PREAMBLE, exprs, shard=900)
     ctx.log("arith: model evaluated")
     adist = {}
     nviol = 0
